@@ -30,7 +30,6 @@ from vplib import common, hist, vallib
 from vplib.vallib import O, jget, jset, jdel, jrename, jcopy, jload, Spelling, PLAIN, Rawjson
 
 KNOWN_SLUG = "validator-escaped-string"
-KNOWN_EMPTY_LPATH = "empty-logical-path"
 INVALID, VALID = True, False
 
 
@@ -229,6 +228,12 @@ for _k, _vals in (("id", [7, None, ["x"]]), ("type", [1, None]), ("digestAlgorit
                   ("contentDirectory", [1, None, ["content"]]), ("fixity", [[], "f", None, 3])):
     for _i, _v in enumerate(_vals):
         EDITS["type-%s-%d" % (_k, _i)] = _mk_type(_k, _v, "")
+
+
+@edit("id-empty")
+def _(o, rng):
+    o.edit_all(lambda t: jset(t, "id", ""))
+    return both(INVALID)
 
 
 @edit("unknown-top-key")
@@ -1485,7 +1490,7 @@ def history_objects(ctx, n_hist, length):
 
 
 def regression_objects(ctx):
-    """must-detect objects of defects found by this check and repaired in /repo:
+    """must-detect objects of defects found by this check (or its siblings) and repaired in /repo:
     b049716 - fixity_check kept one expected digest per algorithm (a HashMap): (a) a wrong sha512 fixity digest
     of a file listed in a prior version inventory was never compared with the file (E093), (b) a content file
     that does not match its manifest digest passed when a sha512 fixity entry carried its real digest (E092)"""
@@ -1513,6 +1518,22 @@ def regression_objects(ctx):
     jset(o.t, "fixity", O([("sha512", O([(d, list(ps))]))]))
     o.save()
     out.append(("regression/b049716-b wrong manifest digest hidden by own-algorithm fixity entry", dst, (INVALID, VALID)))
+    # 95fb10c - the empty string as a logical path passed (3.5.3.1 E051 / E052)
+    for tag, paths in (("c", [""]), ("d", ["a_file.txt", ""])):
+        dst = os.path.join(base, "empty-lpath-" + tag)
+        shutil.copytree(os.path.join(off, "minimal_one_version_one_file"), dst)
+        o = Obj(dst)
+        st = jget(o.headblock(), "state")
+        st[0] = (st[0][0], paths)
+        o.save()
+        out.append(("regression/95fb10c-%s empty logical path %r" % (tag, paths), dst, (INVALID, INVALID)))
+    # b116ae5 - an empty id recorded no error (and panicked later)
+    dst = os.path.join(base, "empty-id")
+    shutil.copytree(os.path.join(off, "minimal_one_version_one_file"), dst)
+    o = Obj(dst)
+    jset(o.t, "id", "")
+    o.save()
+    out.append(("regression/b116ae5 empty id", dst, (INVALID, INVALID)))
     return out
 
 
@@ -1605,7 +1626,6 @@ def run(ctx):
     matrix = collections.Counter()
     by_kind = collections.defaultdict(collections.Counter)
     n_known = 0
-    n_known_lp = 0
     for c, r1, r2, g, (p1, p2) in zip(corpus, R1, R2, G, P):
         for mode, r, gc, pc, exp in (("fixity", r1, g["fix"], p1, c["exp"][0]), ("nofixity", r2, g["nofix"], p2, c["exp"][1])):
             rv = None if r["kind"] in ("panic", "timeout", "error") else (r["kind"] == "invalid")
@@ -1627,10 +1647,6 @@ def run(ctx):
                 if g["known"] and KNOWN_SLUG in known_ids and rv is not None and rv and not gv:
                     ctx.known_hit(KNOWN_SLUG)
                     n_known += 1
-                elif g["known_empty_lpath"] and KNOWN_EMPTY_LPATH in known_ids and rv is False and gv and set(gc) == {52}:
-                    # the logical-path grammar (E051-E053) is the only clause the independent validators report
-                    ctx.known_hit(KNOWN_EMPTY_LPATH)
-                    n_known_lp += 1
                 else:
                     d = detail()
                     d["expected"] = "rocfl validate must report %s: the independent validators agree (%s)" % (
@@ -1643,7 +1659,7 @@ def run(ctx):
     ctx.coverage["verdict_matrix"] = dict(matrix)
     ctx.coverage["matrix_by_kind"] = {k_: dict(v) for k_, v in by_kind.items()}
     ctx.coverage["traces_validated_against_impl"] = 2 * len(corpus)
-    ctx.coverage["known_class_objects"] = {KNOWN_SLUG: n_known, KNOWN_EMPTY_LPATH: n_known_lp}
+    ctx.coverage["known_class_objects"] = {KNOWN_SLUG: n_known}
     ctx.assumptions.append("object-level rules (directory structure, sidecars, cross-inventory consistency, fixity) of Model/Validate.v are tied to the specification by the fixture corpus and the second independent validator, not by a Coq theorem; digests enter the model as computed by Python hashlib")
     ctx.assumptions.append("rocfl's verdict is the exit status of the release CLI `rocfl validate -p` (2 = invalid) built from the current tree")
     return common.finish_with_proof(ctx, proof,
